@@ -13,7 +13,7 @@ ENTRIES = []
 RULE = ("1-4 datasets of random kind (S, Q[S-1], F_K, DCS), per-dataset Qmin/Qmax (60%), Y scale/offset (55%), Q offset (50%, "
         "multiples and non-multiples of 0.01, positive and negative), global Qmin/Qmax window (50% each); after every add_dataset both "
         "storage arrays are compared with an independent recomputation of the statement; non-trivial = a Q offset or a global window present")
-DIST = ["nd", "window", "offset", "shared_info", "reject_at", "edge_window", "lone_origin"]
+DIST = ["nd", "window", "offset", "shared_info", "reject_at", "edge_window", "lone_origin", "via_file"]
 SHRINK = None
 
 
@@ -50,8 +50,31 @@ def gen(rng, i, tier):
             ds[k] = {kk: vv for kk, vv in d.items() if kk in ("x", "y", "dy", "unsorted", "int_y")} | {kk: (dict(vv) if isinstance(vv, dict) else vv) for kk, vv in opts.items()}
     # a dataset whose kind is not one of the four choices is rejected with ValueError; the caller carries on with the same object
     reject_at = int(rng.integers(0, nd + 1)) if rng.random() < 0.2 else None
+    # the datasets live in text files (that is how the CLI and most scripts load them):
+    #  "each": every dataset is read with read_dataset and its own column numbers; one multi-column file may hold two datasets (two banks)
+    #  "all" : the files are registered in StoG.files and read with read_all_data — possibly after a dataset was added from memory, and possibly
+    #          a second time after a merge (every read appends what the files hold; what is stored already stays)
+    via_file = None
+    if rng.random() < 0.16 and not shared and reject_at is None and not lone:
+        import copy as _copy
+        via_file = "each" if rng.random() < 0.5 else "all"
+        if via_file == "each" and rng.random() < 0.7:
+            k = int(rng.integers(0, len(ds)))
+            twin = _copy.deepcopy(ds[k])
+            twin["y"] = [float(v) * 2 + 1 for v in twin["y"]] if twin.get("int_y") else [float(v) * 1.5 + 0.125 for v in twin["y"]]
+            if "dy" in twin:
+                twin["dy"] = [float(v) * 2 for v in twin["dy"]]
+            twin["twin_of_prev"] = True
+            ds.insert(k + 1, twin)
+        if via_file == "all":
+            if rng.random() < 0.6 and len(ds) >= 2:
+                ds[0]["mem"] = True
+            if rng.random() < 0.6 and any(not d.get("mem") for d in ds):
+                ds += [dict(_copy.deepcopy(d), again=True) for d in ds if not d.get("mem")]
+        nd = len(ds)
     return dict(datasets=ds, qmin=qmin, qmax=qmax, bcoh=float(rng.uniform(1, 5)), btot=float(rng.uniform(1, 5)), nd=nd,
-                window=(qmin is not None, qmax is not None), offset=any("X" in d for d in ds), shared_info=shared, reject_at=reject_at, edge_window=edge, lone_origin=lone)
+                window=(qmin is not None, qmax is not None), offset=any("X" in d for d in ds), shared_info=shared, reject_at=reject_at, edge_window=edge, lone_origin=lone,
+                via_file=via_file)
 
 
 def build(case, order=None):
@@ -60,6 +83,8 @@ def build(case, order=None):
     s.qmin, s.qmax = case["qmin"], case["qmax"]
     sc.decoy_instances()      # before and after: a second object in the process changes nothing for this one
     steps = []
+    if case.get("via_file"):
+        return build_from_files(case, s, order)
     seq = list(order if order is not None else range(len(case["datasets"])))
     shared = None
     for pos, k in enumerate(seq):
@@ -73,10 +98,68 @@ def build(case, order=None):
             s.add_dataset(shared)
         else:
             s.add_dataset(sc.to_info(case["datasets"][k]))
-        steps.append((s.reciprocal_individuals.copy(), s.sq_individuals.copy()))
+        steps.append((pos, s.reciprocal_individuals.copy(), s.sq_individuals.copy()))
     if case.get("reject_at") == len(seq):
         reject(s, case["datasets"][seq[-1]])
     return s, steps
+
+
+def build_from_files(case, s, order=None):
+    """the datasets reach the object from text files (see gen); steps are recorded where the storage can be compared with a prefix of the
+    dataset list"""
+    import tempfile, shutil, os
+    ds = case["datasets"]
+    steps = []
+    tmp = tempfile.mkdtemp(prefix="verif_c11_")
+    try:
+        def cols(d, extra=None):
+            c = [d["x"], d["y"], d.get("dy", [0.0] * len(d["x"]))]
+            if extra is not None:
+                c += [extra["y"], extra.get("dy", [0.0] * len(extra["x"]))]
+            return c
+        if case["via_file"] == "each":
+            paths = {}
+            for k, d in enumerate(ds):
+                if d.get("twin_of_prev"):
+                    paths[k] = paths[k - 1]
+                else:
+                    paths[k] = os.path.join(tmp, f"bank{k}.dat")
+                    sc.write_columns(paths[k], cols(d, ds[k + 1] if k + 1 < len(ds) and ds[k + 1].get("twin_of_prev") else None))
+            seq = list(order if order is not None else range(len(ds)))
+            for pos, k in enumerate(seq):
+                if ds[k].get("twin_of_prev"):
+                    s.read_dataset(sc.file_info(ds[k], paths[k]), xcol=0, ycol=3, dycol=4)
+                else:
+                    s.read_dataset(sc.file_info(ds[k], paths[k]))
+                steps.append((pos, s.reciprocal_individuals.copy(), s.sq_individuals.copy()))
+            return s, steps
+        # "all"
+        last = -1
+        for k, d in enumerate(ds):
+            if d.get("mem"):
+                s.add_dataset(sc.to_info(d))
+                last = k
+                steps.append((last, s.reciprocal_individuals.copy(), s.sq_individuals.copy()))
+        files = []
+        for k, d in enumerate(ds):
+            if not d.get("mem") and not d.get("again"):
+                pth = os.path.join(tmp, f"set{k}.dat")
+                sc.write_columns(pth, cols(d))
+                files.append(sc.file_info(d, pth))
+                last = k
+        s.files = files
+        s.read_all_data()
+        steps.append((last, s.reciprocal_individuals.copy(), s.sq_individuals.copy()))
+        if any(d.get("again") for d in ds):
+            if s.sq_individuals.shape[1] > 0:
+                s.merge_data()        # (merging nothing raises ValueError on the pinned tree: not this property's business)
+            s.files = [dict(f) for f in files]
+            s.read_all_data()
+            # merging re-orders the stored S(Q) points (it sorts them by Q): compare as sets of columns from here on
+            steps.append((len(ds) - 1, s.reciprocal_individuals.copy(), s.sq_individuals.copy(), "unordered"))
+        return s, steps
+    finally:
+        shutil.rmtree(tmp, ignore_errors=True)
 
 
 def reject(s, d):
@@ -95,10 +178,23 @@ def evaluate(case):
     with np.errstate(all="ignore"):
         s, steps = build(case)
         R = [sc.spec_ingest(d, case["qmin"], case["qmax"], case["bcoh"], case["btot"], conv) for d in case["datasets"]]
-    for k in range(len(steps)):
+    for st in steps:
+        k, got_r, got_s = st[:3]
         rec = np.concatenate([r[0] for r in R[:k + 1]], axis=1)
         sq = np.concatenate([r[1] for r in R[:k + 1]], axis=1)
-        got_r, got_s = steps[k]
+        if len(st) > 3:
+            # a merge happened in between: it may re-order the stored columns; what must hold is that nothing was lost, added or altered
+            def canon(a):
+                a = np.asarray(a, dtype=float)
+                return a[:, np.lexsort((a[2], a[1], np.rint(a[0] * 100)))] if a.shape[1] else a
+            if got_s.shape != sq.shape:
+                fails.append(f"after reading the files again ({case['via_file']}; a dataset added from memory: {any(d.get('mem') for d in case['datasets'])}): "
+                             f"{got_s.shape[1]} S(Q) points stored, {sq.shape[1]} expected (every read appends what the files hold; what was stored stays)")
+                break
+            if not np.allclose(canon(got_s)[1:], canon(sq)[1:], rtol=1e-12, atol=1e-15) or not np.allclose(canon(got_s)[0], canon(sq)[0], rtol=0, atol=5.1e-3):
+                fails.append("after reading the files again: the stored S(Q) points are not those of the inputs")
+                break
+            continue
         if got_r.shape != got_s.shape or not np.array_equal(got_r[0], got_s[0]):
             fails.append(f"after dataset {k}: the two storage arrays are not aligned")
             break
@@ -119,7 +215,8 @@ def evaluate(case):
         if exceeds(np.abs(got_r[0] - rec[0]).max(initial=0.0), 5.0000001e-3):
             fails.append(f"after dataset {k}: stored Q differs from offset Q by more than the 0.01-lattice rounding")
             break
-    if s.reciprocal_individuals.shape != s.sq_individuals.shape or not np.array_equal(s.reciprocal_individuals[0], s.sq_individuals[0]):
+    merged_between = any(d.get("again") for d in case["datasets"])     # a merge sorts the stored S(Q) points by Q; the raw rows keep their order
+    if not merged_between and (s.reciprocal_individuals.shape != s.sq_individuals.shape or not np.array_equal(s.reciprocal_individuals[0], s.sq_individuals[0])):
         fails.append("the two storage arrays are not aligned at the end (a rejected dataset left one of them changed)")
     lo, hi = case["qmin"], case["qmax"]
     x = s.reciprocal_individuals[0]
